@@ -287,6 +287,8 @@ pub enum Algo {
     DfsPrune,
     DfsBreak,
     DfsRecycledMap,
+    DsaturOverUndirectedAdaptor,
+    DijkstraOverUndirectedAdaptor,
 }
 
 pub const ALL_ALGOS: &[Algo] = &[
@@ -343,6 +345,8 @@ pub const ALL_ALGOS: &[Algo] = &[
     Algo::DfsPrune,
     Algo::DfsBreak,
     Algo::DfsRecycledMap,
+    Algo::DsaturOverUndirectedAdaptor,
+    Algo::DijkstraOverUndirectedAdaptor,
 ];
 
 impl Algo {
@@ -401,6 +405,8 @@ impl Algo {
             Algo::DfsPrune => "depth_first_search_prune",
             Algo::DfsBreak => "depth_first_search_break",
             Algo::DfsRecycledMap => "dfs_reset_onto_recycled_map",
+            Algo::DsaturOverUndirectedAdaptor => "dsatur_coloring_over_undirected_adaptor",
+            Algo::DijkstraOverUndirectedAdaptor => "dijkstra_over_undirected_adaptor",
         }
     }
     /// Is the algorithm in its documented domain on this abstract graph?
@@ -408,6 +414,8 @@ impl Algo {
         let neg = a.has_negative();
         match self {
             Algo::Dijkstra | Algo::DijkstraGoal | Algo::Astar | Algo::KShortest | Algo::FordFulkerson => !neg,
+            Algo::DijkstraOverUndirectedAdaptor => !neg && a.directed,
+            Algo::DsaturOverUndirectedAdaptor => a.directed,
             Algo::BellmanFord | Algo::NegativeCycle | Algo::Spfa | Algo::FloydWarshall | Algo::FloydWarshallPath => true,
             Algo::Topo | Algo::TopoDefaultReset | Algo::ToposortDefaultSpace | Algo::Toposort | Algo::ToposortSpace | Algo::IsCyclicDirected | Algo::Dominators | Algo::FeedbackArcSet | Algo::KosarajuScc | Algo::TarjanScc | Algo::TarjanSccReused | Algo::SccAlias | Algo::TopoWithInitials | Algo::DfsReversed | Algo::BfsReversed | Algo::DfsPrune => a.directed,
             Algo::IsCyclicUndirected | Algo::Bipartite | Algo::ArticulationPoints | Algo::MaximalCliques | Algo::Dsatur | Algo::MstPrim | Algo::Graph6 => !a.directed,
@@ -522,7 +530,7 @@ fn judge_inner(algo: Algo, a: &Abs, p: &Params, r0: &Res, ri: &Res) -> Result<()
         },
         Algo::IsCyclicDirected | Algo::IsCyclicUndirected | Algo::HasPath | Algo::HasPathSpace | Algo::HasPathDefaultSpace | Algo::ConnectedComponents | Algo::Bipartite => eq("verdict"),
         Algo::Dominators => eq("immediate dominator map"),
-        Algo::Dijkstra | Algo::KShortest | Algo::FloydWarshall | Algo::DijkstraGoal => eq("distance map"),
+        Algo::Dijkstra | Algo::KShortest | Algo::FloydWarshall | Algo::DijkstraGoal | Algo::DijkstraOverUndirectedAdaptor => eq("distance map"),
         Algo::FloydWarshallPath => match (r0, ri) {
             (Res::Tree(d0, _), Res::Tree(di, pred)) => {
                 if d0 != di {
@@ -648,7 +656,7 @@ fn judge_inner(algo: Algo, a: &Abs, p: &Params, r0: &Res, ri: &Res) -> Result<()
             _ => eq("result"),
         },
         Algo::ArticulationPoints => eq("articulation point set"),
-        Algo::Dsatur => match ri {
+        Algo::Dsatur | Algo::DsaturOverUndirectedAdaptor => match ri {
             Res::LabelMap(col) => {
                 let c: BTreeMap<usize, usize> = col.iter().copied().collect();
                 if c.len() != a.n {
@@ -917,6 +925,20 @@ macro_rules! run_algo {
         if dup { Res::Failed("a node was emitted twice".into()) }
         else if results[0] != results[1] || results[0] != results[2] { Res::Failed(format!("the walk depends on the size of the recycled map: {:?}", results)) }
         else { Res::Set(results.swap_remove(0)) }
+    }};
+    (@ DsaturOverUndirectedAdaptor, $g:expr, $id:expr, $lb:expr, $a:expr, $p:expr) => {{
+        // an adaptor is a graph type like any other: the symmetrised view of a directed replica
+        let ua = petgraph::visit::UndirectedAdaptor($g);
+        let (m, k) = algo::dsatur_coloring(ua);
+        let v: Vec<(usize, usize)> = { let mut v: Vec<(usize, usize)> = m.into_iter().map(|(n, c)| ($lb(n), c)).collect(); v.sort(); v };
+        if v.iter().any(|x| x.1 >= k.max(1)) { Res::Failed(format!("colour out of range 0..{}", k)) } else { Res::LabelMap(v) }
+    }};
+    (@ DijkstraOverUndirectedAdaptor, $g:expr, $id:expr, $lb:expr, $a:expr, $p:expr) => {{
+        let ua = petgraph::visit::UndirectedAdaptor($g);
+        let m = algo::dijkstra(ua, $id($p.s), None, |e| *e.weight());
+        let mut v: Vec<(usize, f64)> = m.into_iter().map(|(k, c)| ($lb(k), c)).collect();
+        v.sort_by(|x, y| x.0.cmp(&y.0));
+        Res::Map(v)
     }};
     (@ Topo, $g:expr, $id:expr, $lb:expr, $a:expr, $p:expr) => {{
         let order: Vec<usize> = Topo::new($g).iter($g).map(|x| $lb(x)).collect();
@@ -1830,6 +1852,70 @@ fn extras<Ty: EdgeType + Clone + 'static>(
             }
         }
     }
+    if !a.directed && !a.has_negative() && a.n >= 2 {
+        // steiner_tree takes `&UnGraph` only: the two Graph replicas differ in index width and
+        // insertion order. It is a heuristic (ties may be broken differently), so only validity
+        // is compared: a connected subgraph of the input that contains every terminal.
+        acc.op("steiner_tree", 64);
+        // terminals: every other node of the component of s (always connected among themselves)
+        let mut comp: Vec<usize> = Vec::new();
+        {
+            let mut seen = BTreeSet::new();
+            let mut stack = vec![_p.s.min(a.n - 1)];
+            while let Some(x) = stack.pop() {
+                if !seen.insert(x) { continue; }
+                for &(u, v, _) in &a.edges {
+                    if u == x { stack.push(v); }
+                    if v == x { stack.push(u); }
+                }
+            }
+            comp.extend(seen);
+        }
+        let terminals: Vec<usize> = if comp.len() <= 3 || _p.k % 2 == 0 { comp.clone() } else { comp.iter().copied().step_by(2).collect() };
+        if terminals.len() >= 2 {
+            fn run_steiner<Ty: EdgeType, Ix: IndexType>(g: &Graph<u32, f64, Ty, Ix>, terminals: &[usize]) -> (Vec<u32>, Vec<(u32, u32, i64)>) {
+                let mut ug: petgraph::graph::UnGraph<u32, i64, Ix> = petgraph::graph::UnGraph::default();
+                for i in g.node_indices() { ug.add_node(g[i]); }
+                for e in g.edge_references() { ug.add_edge(NodeIndex::new(e.source().index()), NodeIndex::new(e.target().index()), *e.weight() as i64); }
+                let ts: Vec<NodeIndex<Ix>> = terminals.iter().map(|&l| ug.node_indices().find(|&i| ug[i] == l as u32).unwrap()).collect();
+                let t = algo::steiner_tree::steiner_tree(&ug, &ts);
+                (t.node_weights().copied().collect(), t.edge_references().map(|e| (t[e.source()], t[e.target()], *e.weight())).collect())
+            }
+            let validate = |r: &(Vec<u32>, Vec<(u32, u32, i64)>)| -> Result<(), String> {
+                let nodes: BTreeSet<usize> = r.0.iter().map(|&x| x as usize).collect();
+                for &t in &terminals {
+                    if !nodes.contains(&t) { return Err(format!("terminal {} is missing from the tree (nodes {:?})", t, nodes)); }
+                }
+                for &(x, y, w) in &r.1 {
+                    let ok = a.edges.iter().any(|&(u, v, ww)| ((u == x as usize && v == y as usize) || (u == y as usize && v == x as usize)) && ww as i64 == w);
+                    if !ok { return Err(format!("tree edge {} - {} (weight {}) is not an edge of the graph", x, y, w)); }
+                }
+                // connected over its own edges
+                let mut seen = BTreeSet::new();
+                let mut stack = vec![terminals[0]];
+                while let Some(x) = stack.pop() {
+                    if !seen.insert(x) { continue; }
+                    for &(u, v, _) in &r.1 {
+                        if u as usize == x { stack.push(v as usize); }
+                        if v as usize == x { stack.push(u as usize); }
+                    }
+                }
+                for &t in &terminals {
+                    if !seen.contains(&t) { return Err(format!("terminal {} is not connected to terminal {} inside the tree {:?}", t, terminals[0], r.1)); }
+                }
+                Ok(())
+            };
+            let r0 = catch(|| run_steiner(g0, &terminals));
+            if let (Ok(x0), Some(g1)) = (&r0, g1) {
+                if validate(x0).is_ok() {
+                    match catch(|| run_steiner(g1, &terminals)) {
+                        Ok(x1) => if let Err(d) = validate(&x1) { fail!("steiner_tree", "differs", "Graph<u8>", "terminals {:?}: {} (the reference Graph<u32> gives a valid tree)", terminals, d); },
+                        Err(pn) => fail!("steiner_tree", "panic", "Graph<u8>", "terminals {:?}: panicked: {}", terminals, pn),
+                    }
+                }
+            }
+        }
+    }
     if a.directed {
         // condensation (Graph only): the partition and the inter-component edge multiset
         acc.op("condensation", 61);
@@ -1906,10 +1992,10 @@ fn extras<Ty: EdgeType + Clone + 'static>(
 }
 
 impl_replica_set!(Directed,
-    graph: [DfsDefaultReset, DfsPostOrderDefaultReset, DfsMoveTo, HasPathDefaultSpace, TopoDefaultReset, ToposortDefaultSpace, Dfs, Bfs, DfsPostOrder, DepthFirstSearch, Topo, Toposort, ToposortSpace, KosarajuScc, TarjanScc, TarjanSccReused, IsCyclicDirected, HasPath, HasPathSpace, ConnectedComponents, Dominators, Dijkstra, DijkstraGoal, Astar, KShortest, BellmanFord, NegativeCycle, Spfa, FloydWarshall, Mst, GreedyMatching, MaximumMatching, FordFulkerson, PageRank, FeedbackArcSet, SimplePaths, DfsNodeFiltered, DfsEdgeFiltered, DfsBreak, FloydWarshallPath, SccAlias, TopoWithInitials, DfsReversed, BfsReversed, DfsPrune, DfsRecycledMap],
-    stable: [DfsDefaultReset, DfsPostOrderDefaultReset, DfsMoveTo, HasPathDefaultSpace, TopoDefaultReset, ToposortDefaultSpace, Dfs, Bfs, DfsPostOrder, DepthFirstSearch, Topo, Toposort, ToposortSpace, KosarajuScc, TarjanScc, TarjanSccReused, IsCyclicDirected, HasPath, HasPathSpace, Dominators, Dijkstra, DijkstraGoal, Astar, KShortest, BellmanFord, NegativeCycle, Spfa, Mst, GreedyMatching, MaximumMatching, FordFulkerson, PageRank, FeedbackArcSet, SimplePaths, DfsNodeFiltered, DfsEdgeFiltered, DfsBreak, SccAlias, TopoWithInitials, DfsReversed, BfsReversed, DfsPrune, DfsRecycledMap],
-    matrix: [DfsDefaultReset, DfsPostOrderDefaultReset, DfsMoveTo, HasPathDefaultSpace, TopoDefaultReset, ToposortDefaultSpace, Dfs, Bfs, DfsPostOrder, DepthFirstSearch, Topo, Toposort, ToposortSpace, KosarajuScc, TarjanScc, TarjanSccReused, IsCyclicDirected, HasPath, HasPathSpace, Dominators, Dijkstra, DijkstraGoal, Astar, KShortest, BellmanFord, NegativeCycle, Spfa, Mst, GreedyMatching, MaximumMatching, PageRank, FeedbackArcSet, SimplePaths, DfsNodeFiltered, DfsEdgeFiltered, DfsBreak, SccAlias, TopoWithInitials, DfsReversed, BfsReversed, DfsPrune, DfsRecycledMap],
-    gmap: [DfsDefaultReset, DfsPostOrderDefaultReset, DfsMoveTo, HasPathDefaultSpace, TopoDefaultReset, ToposortDefaultSpace, Dfs, Bfs, DfsPostOrder, DepthFirstSearch, Topo, Toposort, ToposortSpace, KosarajuScc, TarjanScc, TarjanSccReused, IsCyclicDirected, HasPath, HasPathSpace, ConnectedComponents, Dominators, Dijkstra, DijkstraGoal, Astar, KShortest, BellmanFord, NegativeCycle, Spfa, FloydWarshall, Mst, GreedyMatching, MaximumMatching, PageRank, SimplePaths, DfsNodeFiltered, DfsEdgeFiltered, DfsBreak, FloydWarshallPath, SccAlias, TopoWithInitials, DfsReversed, BfsReversed, DfsPrune],
+    graph: [DfsDefaultReset, DfsPostOrderDefaultReset, DfsMoveTo, HasPathDefaultSpace, TopoDefaultReset, ToposortDefaultSpace, Dfs, Bfs, DfsPostOrder, DepthFirstSearch, Topo, Toposort, ToposortSpace, KosarajuScc, TarjanScc, TarjanSccReused, IsCyclicDirected, HasPath, HasPathSpace, ConnectedComponents, Dominators, Dijkstra, DijkstraGoal, Astar, KShortest, BellmanFord, NegativeCycle, Spfa, FloydWarshall, Mst, GreedyMatching, MaximumMatching, FordFulkerson, PageRank, FeedbackArcSet, SimplePaths, DfsNodeFiltered, DfsEdgeFiltered, DfsBreak, FloydWarshallPath, SccAlias, TopoWithInitials, DfsReversed, BfsReversed, DfsPrune, DfsRecycledMap, DsaturOverUndirectedAdaptor, DijkstraOverUndirectedAdaptor],
+    stable: [DfsDefaultReset, DfsPostOrderDefaultReset, DfsMoveTo, HasPathDefaultSpace, TopoDefaultReset, ToposortDefaultSpace, Dfs, Bfs, DfsPostOrder, DepthFirstSearch, Topo, Toposort, ToposortSpace, KosarajuScc, TarjanScc, TarjanSccReused, IsCyclicDirected, HasPath, HasPathSpace, Dominators, Dijkstra, DijkstraGoal, Astar, KShortest, BellmanFord, NegativeCycle, Spfa, Mst, GreedyMatching, MaximumMatching, FordFulkerson, PageRank, FeedbackArcSet, SimplePaths, DfsNodeFiltered, DfsEdgeFiltered, DfsBreak, SccAlias, TopoWithInitials, DfsReversed, BfsReversed, DfsPrune, DfsRecycledMap, DsaturOverUndirectedAdaptor, DijkstraOverUndirectedAdaptor],
+    matrix: [DfsDefaultReset, DfsPostOrderDefaultReset, DfsMoveTo, HasPathDefaultSpace, TopoDefaultReset, ToposortDefaultSpace, Dfs, Bfs, DfsPostOrder, DepthFirstSearch, Topo, Toposort, ToposortSpace, KosarajuScc, TarjanScc, TarjanSccReused, IsCyclicDirected, HasPath, HasPathSpace, Dominators, Dijkstra, DijkstraGoal, Astar, KShortest, BellmanFord, NegativeCycle, Spfa, Mst, GreedyMatching, MaximumMatching, PageRank, FeedbackArcSet, SimplePaths, DfsNodeFiltered, DfsEdgeFiltered, DfsBreak, SccAlias, TopoWithInitials, DfsReversed, BfsReversed, DfsPrune, DfsRecycledMap, DsaturOverUndirectedAdaptor, DijkstraOverUndirectedAdaptor],
+    gmap: [DfsDefaultReset, DfsPostOrderDefaultReset, DfsMoveTo, HasPathDefaultSpace, TopoDefaultReset, ToposortDefaultSpace, Dfs, Bfs, DfsPostOrder, DepthFirstSearch, Topo, Toposort, ToposortSpace, KosarajuScc, TarjanScc, TarjanSccReused, IsCyclicDirected, HasPath, HasPathSpace, ConnectedComponents, Dominators, Dijkstra, DijkstraGoal, Astar, KShortest, BellmanFord, NegativeCycle, Spfa, FloydWarshall, Mst, GreedyMatching, MaximumMatching, PageRank, SimplePaths, DfsNodeFiltered, DfsEdgeFiltered, DfsBreak, FloydWarshallPath, SccAlias, TopoWithInitials, DfsReversed, BfsReversed, DfsPrune, DsaturOverUndirectedAdaptor, DijkstraOverUndirectedAdaptor],
     csr: [DfsDefaultReset, DfsPostOrderDefaultReset, DfsMoveTo, HasPathDefaultSpace, Dfs, Bfs, DfsPostOrder, DepthFirstSearch, TarjanScc, TarjanSccReused, IsCyclicDirected, HasPath, HasPathSpace, ConnectedComponents, Dominators, Dijkstra, DijkstraGoal, Astar, KShortest, BellmanFord, NegativeCycle, Spfa, FloydWarshall, Mst, GreedyMatching, MaximumMatching, PageRank, DfsNodeFiltered, DfsEdgeFiltered, DfsBreak, FloydWarshallPath, DfsPrune, DfsRecycledMap],
     list: [DfsDefaultReset, DfsPostOrderDefaultReset, DfsMoveTo, HasPathDefaultSpace, Dfs, Bfs, DfsPostOrder, DepthFirstSearch, TarjanScc, TarjanSccReused, IsCyclicDirected, HasPath, HasPathSpace, ConnectedComponents, Dominators, Dijkstra, DijkstraGoal, Astar, KShortest, BellmanFord, NegativeCycle, Spfa, FloydWarshall, Mst, GreedyMatching, MaximumMatching, PageRank, DfsNodeFiltered, DfsEdgeFiltered, DfsBreak, FloydWarshallPath, DfsPrune, DfsRecycledMap]);
 impl_replica_set!(Undirected,
